@@ -19,6 +19,7 @@ frostp2p stream (`drive-frostp2p`; receive side of `dkg/frostp2p.go`, model `Mod
   p2pcer <n> <t> <vals> <seed>           -> ok | err      (ceremony over the real frostP2P; also enables val/rec/sig)
   cb <n> <t> <vals> <self>               -> ok            (callbacks of one node only)
   d <j> <c1|p|c2> <from> <variant>       -> q <queued so far> | dup | err <class>
+  race <j> <c1|c2> <from>                -> two deliveries of the genuine cast in a sequential order: r1 | r2
   fin                                    -> per node j:c1=[senders]#keys,p=[..]#keys,c2=[..]#keys
 -/
 import CharonV.Model.Fr
@@ -168,7 +169,18 @@ def mkMsg (n t nv j : Nat) (kind : String) (sender : Nat) (variant : String) : O
         | [] => []
         | e :: rest => { e with commits := e.commits + 1 } :: rest)
     | "fv" => some base.dropLast
-    | _ => none
+    | _ =>
+      -- ws<k> / wt<k> / wv<k>: exactly the entry at position k is altered
+      match (variant.drop 2).toString.toNat? with
+      | none => none
+      | some k =>
+        let alter : Option (Entry → Entry) :=
+          if variant.startsWith "ws" then some fun e => { e with key := { e.key with sourceID := src % n + 1 } }
+          else if variant.startsWith "wt" then
+            some fun e => { e with key := { e.key with targetID := if kind == "p" then j % n + 1 else j } }
+          else if variant.startsWith "wv" then some fun e => { e with key := { e.key with valIdx := nv } }
+          else none
+        alter.map fun f => (base.zipIdx.map fun (e, i) => if i == k then f e else e)
   es.map fun es => { sender := sender, entries := es, tag := 0 }
 
 def errStr : Err → String
@@ -208,6 +220,26 @@ def step (s : St) (line : String) : St × String :=
           | .dup => "dup"
           | .err e => "err " ++ errStr e
         ({ s with nodes := s.nodes.map fun x => if x.id == j then nd' else x }, out)
+      | _, _ => (s, "bad-op")
+    | _, _ => (s, "bad-op")
+  | ["race", j, kind, sender] =>
+    match j.toNat?, sender.toNat? with
+    | some j, some sender =>
+      match s.nodes.find? (·.id == j), mkMsg s.n s.t s.nv j kind sender "g" with
+      | some nd, some m =>
+        if (kind != "c1" && kind != "c2") || !(1 ≤ sender && sender ≤ s.n) then (s, "bad-op") else
+        let cfg : Cfg := { n := s.n, t := s.t, nv := s.nv, self := j }
+        let commits := if kind == "c1" then some s.t else none
+        let ch := if kind == "c1" then nd.c1 else nd.c2
+        -- overlapping invocations are equivalent to a sequential order (identical messages: one order)
+        let r1 := bcastCb cfg commits ch m
+        let r2 := bcastCb cfg commits r1.1 m
+        let render (r : Chan × Res) : String := match r.2 with
+          | .queued => s!"q {r.1.queue.length}"
+          | .dup => "dup"
+          | .err e => "err " ++ errStr e
+        let nd' := if kind == "c1" then { nd with c1 := r2.1 } else { nd with c2 := r2.1 }
+        ({ s with nodes := s.nodes.map fun x => if x.id == j then nd' else x }, render r1 ++ " | " ++ render r2)
       | _, _ => (s, "bad-op")
     | _, _ => (s, "bad-op")
   | ["fin"] =>
